@@ -1,5 +1,6 @@
 import Rivaas.Lemmas.VersionSel
 import Rivaas.Lemmas.VersionCfg
+import Rivaas.Model.VersionChain
 /-
 C13 — API-version routing follows the configured detection order.
 
@@ -538,6 +539,81 @@ theorem deprecated_use_iff_header (cfg : Cfg) (routes : List Route) (req : Req) 
 example : detectLoopEv [vb!"v1", vb!"v2"] vb!"/x" vb!"v=v9"
       [(.header vb!"X-V", .header vb!"v7"), (.query vb!"v", .query true vb!"v9"), (.custom 1, .custom vb!"v2")] =
     [.invalid vb!"v7", .invalid vb!"v9", .detected vb!"v2" vb!"custom"] := by decide
+
+/-! ### the handler chain of a version-group route (app layer) -/
+
+section Chain
+open Rivaas.VersionChain
+
+/-- **order of a version-group route's chain**: group middleware, then the `WithBefore` handlers, the handler, the
+    `WithAfter` handlers — composed from the group's list as it is when the route is registered -/
+theorem chain_shape (s : GSt) (g r : Nat) (before after mw : List Nat) (h : s.groups.lookup g = some mw) :
+    (s.step (.route g r before after)).routes = s.routes ++ [(r, mw ++ before ++ [0] ++ after)] := by
+  simp [GSt.step, h]
+
+/-- a route's chain is fixed at registration: no later operation changes it -/
+theorem chain_fixed_at_registration (s : GSt) (op : GOp) : ∃ more, (s.step op).routes = s.routes ++ more := by
+  cases op with
+  | use g ids => refine ⟨[], ?_⟩; simp only [GSt.step]; split <;> simp
+  | sub p c ids => refine ⟨[], ?_⟩; simp only [GSt.step]; split <;> simp
+  | route g r b a =>
+    simp only [GSt.step]
+    split
+    · exact ⟨_, rfl⟩
+    · exact ⟨[], by simp⟩
+  | appUse ids => exact ⟨[], by simp [GSt.step]⟩
+
+/-- **a nested group copies its parent's middleware when it is created**: `Use` on the parent afterwards does not
+    reach the child -/
+theorem sub_group_is_snapshot (s : GSt) (p c : Nat) (more : List Nat) (hpc : p ≠ c) :
+    (s.step (.use p more)).groups.lookup c = s.groups.lookup c := by
+  simp only [GSt.step]
+  split
+  · simp [List.lookup, beq_eq_false_iff_ne.2 (Ne.symm hpc)]
+  · rfl
+
+/-- … and the child starts from the parent's list followed by its own -/
+theorem sub_group_inherits (s : GSt) (p c : Nat) (ids mw : List Nat) (h : s.groups.lookup p = some mw) :
+    (s.step (.sub p c ids)).groups.lookup c = some (mw ++ ids) := by
+  simp [GSt.step, h]
+
+def appIds : GOp → List Nat
+  | .appUse ids => ids
+  | _ => []
+
+theorem lemma_global_fold (ops : List GOp) (s : GSt) :
+    (ops.foldl GSt.step s).global = s.global ++ (ops.map appIds).flatten := by
+  induction ops generalizing s with
+  | nil => simp
+  | cons o rest ih =>
+    rw [List.foldl_cons, ih]
+    cases o with
+    | use g ids => simp only [GSt.step]; split <;> simp [appIds]
+    | sub p c ids => simp only [GSt.step]; split <;> simp [appIds]
+    | route g r b a => simp only [GSt.step]; split <;> simp [appIds]
+    | appUse ids => simp [GSt.step, appIds]
+
+/-- **global middleware first, all of it**: every `app.Use` of the script — before or after the route was registered —
+    runs in front of the route's own chain, in call order -/
+theorem global_middleware_first (ops : List GOp) (r : Nat) (c : List Nat) (h : (r, c) ∈ chains ops) :
+    ∃ own, c = (ops.map appIds).flatten ++ own ∧ (r, own) ∈ (runOps ops).routes := by
+  unfold chains at h
+  simp only [List.mem_map] at h
+  obtain ⟨⟨r', own⟩, hmem, heq⟩ := h
+  simp only [Prod.mk.injEq] at heq
+  obtain ⟨rfl, rfl⟩ := heq
+  refine ⟨own, ?_, hmem⟩
+  have := lemma_global_fold ops GSt.init
+  have h0 : GSt.init.global = [] := rfl
+  rw [h0, List.nil_append] at this
+  unfold runOps
+  rw [this]
+
+/-- not vacuous: parent `Use` after the child was created, `app.Use` after the route was registered -/
+example : chains [.sub 0 1 [1], .use 0 [2], .route 1 7 [3] [4], .route 0 8 [] [5], .appUse [9]] =
+    [(7, [9, 1, 3, 0, 4]), (8, [9, 2, 0, 5])] := by decide
+
+end Chain
 
 /-! ### the configuration step (`version.NewConfig` and the option functions) -/
 
